@@ -15,7 +15,7 @@ import numpy as np
 from ..kit import cz, czl, cnat, cnatl, cstr, cbool, clist
 
 HDR = ("From Coq Require Import String.\nFrom Coq Require Import List ZArith.\n"
-       "From NV.Lib Require Import RingMat Harness.\nFrom NV.C01 Require Import Model Exec Axes.\nOpen Scope string_scope.\n")
+       "From NV.Lib Require Import RingMat Harness.\nFrom NV.C01 Require Import Model Exec Axes Batch.\nOpen Scope string_scope.\n")
 
 NAMES = list("ijklmnxyztuvw") + ["phase", "freq", "slice"]
 SYSNAMES = ["", "in", "out", "world"]
@@ -495,6 +495,11 @@ def rand_axis_aff(rng):
             M[int(rng.integers(0, nout)), int(rng.integers(0, nin))] = int(rng.integers(-2, 3))
     elif c < 0.4:
         M[:-1, :-1] = rng.integers(-2, 3, (nout, nin))
+    if rng.random() < 0.35:      # large steps (e.g. time in ms) next to unit couplings: orthogonality is not relative
+        k = int(rng.integers(0, nout))
+        M[k, :-1] *= 10 ** int(rng.integers(3, 9))
+        if rng.random() < 0.5 and nin > 1 and nout > 1:
+            M[int(rng.integers(0, nout)), int(rng.integers(0, nin))] += int(rng.choice([-1, 1]))
     M[:-1, -1] = rng.integers(-4, 5, nout)
     M[-1, -1] = 1
     names = [str(v) for v in rng.permutation(NAMES)]
@@ -633,6 +638,76 @@ def axes(ck):
     ck.section("axes", fix0=len(t_fx), io_axis_indices=len(t_io), drop_by_id=len(t_dr))
 
 
+def batches(ck):
+    """Point batches: maps evaluated on arrays of shape (..., nin) with 1-3 leading dimensions in C, Fortran,
+    transposed-base and strided layouts; every batch position must hold the map applied to the point at that
+    position (AffineTransform and general CoordinateMap), and the C-order flattening must agree with the model."""
+    rng = ck.rng("batches")
+    ncases = ck.n(120, 1200)
+    terms, metas = [], []
+    for case in range(ncases):
+        a = rand_aff(rng, 4)
+        nin, nout = a.ndims
+        isint = np.dtype(a.function_domain.coord_dtype).kind == "i"
+        lead = tuple(int(v) for v in rng.integers(1, 5, int(rng.integers(1, 4))))
+        X = rng.integers(-6, 7, lead + (nin,)).astype(np.int64 if isint else np.float64)
+        layout = str(rng.choice(["C", "F", "transposed-base", "strided", "negative-stride"]))
+        if layout == "F":
+            Xl = np.asfortranarray(X)
+        elif layout == "transposed-base":          # what np.indices(...).T produces
+            Xl = np.ascontiguousarray(X.transpose()).transpose()
+        elif layout == "strided":
+            big = np.zeros(tuple(2 * s for s in X.shape), dtype=X.dtype)
+            sl = tuple(slice(None, None, 2) for _ in X.shape)
+            big[sl] = X
+            Xl = big[sl]
+        elif layout == "negative-stride":
+            Xl = X[::-1].copy()[::-1]
+        else:
+            Xl = X
+        assert np.array_equal(Xl, X)
+        want = np.array([np.asarray(call(a, x), dtype=float) for x in X.reshape(-1, nin)]).reshape(lead + (nout,))
+        meta = {"map": caff(a), "batch_shape": list(X.shape), "layout": layout, "X": X.tolist()}
+        for kind, m in (("affine", a), ("cmap", make_cmap(a) if not isint else None)):
+            if m is None:
+                continue
+            X0 = Xl.copy()
+            try:
+                got = np.asarray(m(Xl), dtype=float)
+            except Exception as e:  # noqa
+                ck.fail("batch/%s/raises/%s" % (kind, layout), "evaluating a %s batch raised %s: %s" % (layout, type(e).__name__, e), meta)
+                continue
+            ck.count(("batch", kind, caff(a), X.tobytes(), layout), nontrivial=X.ndim > 2, bucket="batch:%s:%s:ndim%d" % (kind, layout, X.ndim))
+            if got.shape != want.shape or not np.array_equal(got, want):
+                ck.fail("batch/%s/not-pointwise/%s" % (kind, layout),
+                        "the value at some batch position is not the map applied to the point at that position", dict(meta, got=got.tolist(), expected=want.tolist()))
+            if not np.array_equal(Xl, X0):
+                ck.fail("batch/%s/modifies-points" % kind, "evaluation changed the caller's point array", meta)
+            if kind == "affine" and got.shape == want.shape and is_int_matrix(got):
+                terms.append("batch_agrees %s %s %s (Some %s)" % (caff(a), cnat(int(np.prod(lead))), czl([int(v) for v in X.reshape(-1)]),
+                                                                   czl([int(v) for v in got.reshape(-1)])))
+                metas.append(meta)
+        # wrong trailing length must be refused
+        if rng.random() < 0.3:
+            bad = rng.integers(-3, 4, lead + (nin + 1,)).astype(X.dtype)
+            try:
+                a(bad)
+                ck.fail("batch/accepts-wrong-trailing-length", "a batch whose last axis is not the domain dimension was accepted", meta)
+            except Exception:
+                terms.append("batch_agrees %s %s %s None" % (caff(a), cnat(int(np.prod(lead))), czl([int(v) for v in bad.reshape(-1)])))
+                metas.append(dict(meta, bad_shape=list(bad.shape)))
+        if case < 1:
+            ck.sample({"batch_shape": list(X.shape), "layout": layout})
+    if ck.build.ok:
+        res = ck.coq_bools(HDR, terms, shard=200, name="batches")
+        ck.cov["traces_validated_against_impl"] += len(res)
+        for ok, m in zip(res, metas):
+            if not ok:
+                ck.fail("model-vs-impl/batch", "batch evaluation: model and implementation disagree", m)
+                break
+    ck.section("batches", batches=ncases, model_comparisons=len(terms))
+
+
 def run(ck):
     ck.cov["rule"] = ("random programs (length 1..8) over 3..5 random integer AffineTransforms (dims 1..4/5, unimodular/rank-deficient, "
                       "int64 and float64 systems, colliding names), ~22% of steps deliberately ill-typed; a case = one program step; "
@@ -713,5 +788,6 @@ def run(ck):
     ck.section("programs", programs=len(terms), point_evaluations=len(pterms))
     cmaps(ck)
     axes(ck)
+    batches(ck)
     ck.trust.append("oracles: numpy.linalg.inv (candidate inverse is an input of the model, which re-checks shape/bottom row); "
                     "nibabel.io_orientation (its first column is an input of the model's io_axis_indices / drop_by_id; in random programs the (in,out) pair io_axis_indices returns is an input of the model's drop_io_dim)")
